@@ -145,7 +145,7 @@ def peek_first(items:Iterable[_T], n:int=1, reduce:bool=True) -> Tuple[Union[_T,
 def try_else(f:Callable[[],Any], default: Any) -> Any:
     try:
         return f()
-    except:
+    except Exception: #(not a bare except: a KeyboardInterrupt isn't a reason to use the default)
         return default
 
 def minimize(obj,precision=5):
